@@ -12,7 +12,17 @@ VARIABLE l
 JInit == l \in 1..(IF Len(TraceLog) < Shards THEN Len(TraceLog) ELSE Shards)
 JNext == l + Shards <= Len(TraceLog) /\ l' = l + Shards
 Want(r) == IF r.keyOk THEN Executed(r.acts, r.local, r.unsafe) ELSE <<>>
+(* k = "get": a GET with the given limit / offset on a session whose match list is `all` and selection `selAll`;   *)
+(*   it must answer 200 with exactly the slices, the counts of the whole lists, and leave the state as it was      *)
+ExplainedGet(r) ==
+    /\ r.status = 200
+    /\ r.got = DumpSlice(r.all, r.limit, r.offset)
+    /\ r.selGot = DumpSlice(r.selAll, r.limit, r.offset)
+    /\ r.matchCount = Len(r.all)
+    /\ r.after = r.before
+    /\ r.alive
 Explained(r) ==
+  IF "k" \in DOMAIN r /\ r.k = "get" THEN ExplainedGet(r) ELSE
     /\ r.ran = Want(r)
     /\ r.status = (IF r.keyOk THEN 200 ELSE 401)
     \* a command ran iff its action was executed: marker k is created iff action k is in Want and is a marker action
